@@ -40,6 +40,11 @@ CLAIMED = {
             "bit-exact on integer payloads.",
             "Trusted: torch.cat/F.pad/diag/tensordot on the checker's dense contraction.",
             "DESIGN.md 4/C09"),
+    "C19": ("property-based testing (Hypothesis): generated objects (cores / TT-SVD / round / strided views / conj views / grad) through save+load and copy operations, round-trip oracle",
+            "Round-trip and copy-independence oracles over objects built in every way the statement names (numpy-int "
+            "rank lists, non-contiguous and lazily conjugated core views, requires_grad cores), all four dtypes.",
+            "Trusted: torch.equal, storage pointers, the checker's dense contraction. CPU only.",
+            "DESIGN.md 4/C19"),
 }
 
 NOT_YET = {}
